@@ -258,7 +258,7 @@ Section Pos.
     specialize (H ltac:(intros s Hs; split; [apply Hs|auto])).
     assert (Hst : forall s, pos_inv s -> match fst (stepx s) with inl s' => pos_inv s'
                    | inr (r, s') => pos_fin s' /\ (r = OutOfFuel -> pos_inv s') end).
-    { intros s Hs. pose proof (step_pos s Hs) as [_ H2]. pose proof (act_spec_holds V C g tbl buf cap term_f err_f rule_f) as _.
+    { intros s Hs. pose proof (step_pos s Hs) as [_ H2].
       revert H2. apply step_cases.
       - intros _ H2. split; [assumption|discriminate].
       - intros s1 ev1 _ H2. split; [assumption|discriminate].
@@ -386,3 +386,23 @@ Section PosTree.
     specialize (H2 c Hc). rewrite Forall_forall in H2. auto.
   Qed.
 End PosTree.
+
+(* ---------- the hypothesis on the table cannot be dropped ---------- *)
+(* terms: 0 = a, 1 = <eof>, 2 = <error_recovery_token>; one state whose <eof> column says "shift". On the buffer "\n"
+   every iteration skips the newline again, shifts <eof>, and consume_term moves the cursor back to offset 0 while
+   the source point keeps the advanced line: after 3 iterations the driver is at offset 0 believing it is on line 4. *)
+Module EofShiftCounterexample.
+  Definition g := mkG 3 0 0 1 [] [] [] [] [] [] [] [].
+  Definition sh := mkE KShift (Some 0) false.
+  Definition er := mkE KError None false.
+  Definition tbl : table := [[er; sh; er]].
+  Definition lexer (v : bool) (p : spoint) (rest : list nat) : list lex_event * option (nat * nat) := ([], Some (0, 1)).
+  Definition o := mkOpt true true true.
+  Example positions_wrong :
+    let '(_, s, out) := run ptree _ g tbl o [10] None lexer tree_term_f tree_err_f tree_rule_f 3 [] in
+    ps_it s = 0 /\ ps_sp s = mkSp 4 1 /\ true_pos [10] (ps_it s) = mkSp 1 1 /\
+    In (EvShift (mkSp 3 1) 0 1 0) out /\ true_pos [10] 1 = mkSp 2 1.
+  Proof. vm_compute. repeat split. right; right; right; left; reflexivity. Qed.
+  Example lexer_fine : forall v p rest t len, snd (lexer v p rest) = Some (t, len) -> 0 < len.
+  Proof. intros v p rest t len H. inversion H. lia. Qed.
+End EofShiftCounterexample.
